@@ -235,6 +235,18 @@ def run(chk, repo, tier):
     i3(chk, repo)
     i4(chk, repo)
     p7(chk, repo, tier, only={"TotalLiftDrag", "Equilibrium", "BreguetRange", "CenterOfGravity", "ReynoldsComp", "Coeffs"}, rule="I2")
+    i5(chk, repo)
+
+
+PERF_INPUTS = {"load_factor", "W0", "CT", "R", "speed_of_sound", "Mach_number", "rho", "v", "alpha", "beta", "cg", "S_ref_total", "empty_cg", "total_weight", "re"}
+
+
+def i5(chk, repo):
+    """Every functional sees the same flight condition and weights as its siblings."""
+    from .c16 import exposure
+
+    exposure(chk, repo, "I5", PERF_INPUTS, groups={"TotalPerformance", "TotalAeroPerformance"}, min_decided=12,
+             text="in the performance groups (TotalPerformance, TotalAeroPerformance), wherever a functional has an input named like a flight-condition or weight quantity (load_factor, W0, CT, R, speed_of_sound, Mach_number, rho, v, alpha, beta, cg, S_ref_total, empty_cg, total_weight, re; not fuelburn, whose connection is an option of the group) the group promotes it under that name: a functional left on its own default (e.g. the centre of gravity weighting fuel at 1 g while total_weight uses the manoeuvre load factor) makes the metrics mutually inconsistent")
 
 
 # --------------------------------------------------------------------------- I3
